@@ -21,6 +21,7 @@ type tNetCfg struct {
 	recurrent              bool // also allow backward links and self-loops among neurons
 	atype                  neatmath.NodeActivationType
 	symTypes               bool // activation type of each neuron symbolic (used with the uninterpreted act redirect)
+	concreteW              bool // distinct concrete weights (keeps recurrent multi-step terms linear in the inputs)
 }
 
 func symW(tag string) float64 {
@@ -68,7 +69,12 @@ func tBuild(c tNetCfg) *tNet {
 	firstHid := t.nSensors + c.nOut
 	add := func(f, to int) {
 		if vChoice("edge", 2) == 1 {
-			w := symW("w")
+			var w float64
+			if c.concreteW {
+				w = []float64{0.5, -0.75, 1.25, -0.375, 0.625, -1.5, 0.875, 0.25, -0.125, 1.75, -0.9375, 0.4375}[len(t.w)%12]
+			} else {
+				w = symW("w")
+			}
 			l := t.all[to].ConnectFrom(t.all[f], w)
 			_ = l
 			t.from = append(t.from, f)
